@@ -142,8 +142,12 @@ Inductive outcome := ONormal | ORaised (k : kind) | OIOError.
 (* what sys.stdout is when the program has ended: an ordinary stream, None
    (print() is then silent, .flush() raises AttributeError), or a stream whose
    write raises (a closed file, a file opened for reading, ...) *)
-Inductive ostate := OutOk | OutNone | OutBroken.
-Definition ostate_of (c : Z) : ostate := match c with 0 => OutOk | 1 => OutNone | _ => OutBroken end.
+Inductive ostate := OutOk | OutNone | OutBroken | OutRebound.
+(* OutRebound: the program rebound sys.stdout to another working stream (a log file, a
+   StringIO, a tee object) and ended without restoring it: print() succeeds but what it
+   writes does not arrive on the process's standard output *)
+Definition ostate_of (c : Z) : ostate :=
+  match c with 0 => OutOk | 1 => OutNone | 2 => OutBroken | _ => OutRebound end.
 
 Inductive eff :=
 | FInstall | FUninstall | FEnable | FDisable
@@ -155,6 +159,7 @@ Inductive eff :=
 | FWrote (outfile : string)
 | FInspect
 | FIOFails                                  (* a print / flush on the program's stdout raises *)
+| FView (s : pst)                           (* -v: the report, written to the stdout saved BEFORE the program ran *)
 | FShowFails                                (* GlobalProfiler.show raises in its first step *)
 | FShow (outs : list (Z * option string)) (s : pst).   (* GlobalProfiler.show at interpreter exit *)
 
@@ -164,6 +169,7 @@ Inductive stmt :=
 | SDump (outfile : string)
 | SPrint (e : eff)        (* print(...) to sys.stdout *)
 | SFlush                  (* sys.stdout.flush() *)
+| SView                   (* prof.print_stats(stream=original_stdout) *)
 | SProgram
 | SProgramT (ticks : list nat) (tfile : string)   (* the program, with the -i timer thread dumping to tfile
                                                      after each of the given numbers of further events *)
@@ -199,11 +205,12 @@ Section Exec.
     | SDump o => ([FDump o st], ONormal, st)
     | SPrint e => match out with
                   | OutOk => ([e], ONormal, st)
-                  | OutNone => ([], ONormal, st)
+                  | OutNone | OutRebound => ([], ONormal, st)
                   | OutBroken => ([FIOFails], OIOError, st)
                   end
+    | SView => ([FView st], ONormal, st)
     | SFlush => match out with
-                | OutOk => ([], ONormal, st)
+                | OutOk | OutRebound => ([], ONormal, st)
                 | _ => ([FIOFails], OIOError, st)
                 end
     | SProgram => (map FProg stream ++ raise_eff, program_outcome, prof_run reg st stream)
@@ -256,6 +263,19 @@ Definition kern_main (ctx timed : bool) (outfile : string) : stmt := kern_main_g
 (* with -i: a RepeatedTimer thread dumps to the same outfile while the program runs *)
 Definition kern_main_ticks (ticks : list nat) (ctx : bool) (outfile : string) : stmt :=
   kern_main_gen (SProgramT ticks outfile) ctx true outfile.
+
+(* kernprof -l -v: after the dump and its closing line the report is printed from the
+   same profiler object to the stream that was sys.stdout before the program ran; the
+   profiler was switched off before the dump, so nothing is recorded in between *)
+Definition kern_main_view (ctx : bool) (outfile : string) : stmt :=
+  SSeq (SEff FInstall)
+       (SFinally
+          (STry (if ctx then SFinally (SSeq (SEff FEnable) SProgram) (SEff FDisable) else SProgram)
+                absorbed SSkip)
+          (SSeq (SEff FUninstall) (SSeq (SDump outfile) (SSeq (SPrint (FWrote outfile)) SView)))).
+Definition is_view (e : eff) : bool := match e with FView _ => true | _ => false end.
+Fixpoint viewed_state (tr : list eff) : option pst :=
+  match tr with [] => None | FView s :: _ => Some s | _ :: t => viewed_state t end.
 
 (* a variant that is NOT the code: the finally block starts by flushing the
    program's stdout (used to state what the order of the real block buys) *)
@@ -415,3 +435,16 @@ Definition explicit_case_ok (trig : Z) (full ex : list pev) (m : Z) (kd : Z) (ou
    && (count_eff is_show tr =? impl_shows),
    prefix_unwind_ok trig full ex k m,
    hits_are_counts reg ex impl_hits && (impl_shows =? 1)).
+
+(* one kernprof -l -v case: besides the file, was the report seen on the process's real
+   stdout (view_seen) and do its numbers agree with the file's (view_agrees, computed on
+   the two texts)? *)
+Definition view_case_ok (ex : list pev) (kd : Z) (outc : Z) (regl : list Z) (impl_hits : list (Z * Z * Z))
+           (impl_rc view_seen view_agrees : Z) : bool * bool * bool :=
+  let k := match kd with 0 => KReturn | 1 => KSysExit | 2 => KKbdInt | _ => KExc end in
+  let reg := reg_of regl in
+  let '(tr, oc, _) := exec ex k reg (ostate_of outc) (kern_main_view false "out") pst0 in
+  let snap := match last_dump tr with Some (_, s) => s | None => pst0 end in
+  (hits_agree (p_hits snap) ex impl_hits && (kern_exit false k oc =? impl_rc) && (count_eff is_view tr =? view_seen),
+   wf ex && closed ex,
+   hits_are_counts reg ex impl_hits && (view_seen =? 1) && (view_agrees =? 1)).
